@@ -197,6 +197,15 @@ impl Session {
                         self.vis.get()
                     }
                 }
+                // exactly the oldest held snapshot (a reader at S needs the newest version with
+                // seqno < S, which a watermark of S still retains)
+                Some("at") => {
+                    if let Some(m) = self.snaps.iter().min() {
+                        *m
+                    } else {
+                        self.vis.get()
+                    }
+                }
                 // above every seqno ever issued when no snapshot is held
                 Some("high") => {
                     if let Some(m) = self.snaps.iter().min() {
